@@ -93,6 +93,17 @@ def build_inputs(entry, rep, cond):
         store['localbkg_est'] = B.LocalBackground(5, 9, bkg_estimator=B.MedianBackground())
         store['finder'] = DAOStarFinder(10.0, 3.5)
         # (an astropy fitter is not tracked: storing fit_info on itself is the documented behaviour of astropy's fitters)
+    if entry in ('aperture_photometry', 'aperture_stats'):
+        from astropy.stats import SigmaClip
+        from photutils.aperture import CircularAnnulus, CircularAperture
+        store['ap_positions'] = np.array(E._positions() + [(1.0, 1.0)])
+        store['aperture5'] = CircularAperture(store['ap_positions'], 4.0)
+        store['apertures'] = [CircularAperture(E._positions(), 3.0), CircularAnnulus(E._positions(), 4.0, 6.0)]
+        store['sigma_clip_obj'] = SigmaClip(sigma=3.0, maxiters=3)
+    if entry == 'source_catalog' and rep in ('ndarray', 'view') and cond in ('clean', 'negative'):
+        from photutils.segmentation import SourceCatalog
+        store['detection_data'] = np.asarray(base['data'], dtype=float) + 1.0
+        store['detection_cat'] = SourceCatalog(store['detection_data'], segm)
     store['sigclip'] = cond in ('nonfinite', 'negative')
     store['localbkg_width'] = 4 if cond == 'negative' else 0
     if cond == 'invalid' and entry in E.NOIMG_INVALID:
@@ -130,6 +141,11 @@ def snapshot(store):
             continue
         if hasattr(v, 'deblended_labels_inverse_map') and hasattr(v, 'data'):      # SegmentationImage
             out[k] = digest([np.asarray(v.data), sorted((int(a), [int(c) for c in b]) for a, b in v.deblended_labels_inverse_map.items())])
+        elif k == 'detection_cat':
+            out[k] = digest([np.asarray(v.labels), np.asarray(v.xcentroid), np.asarray(v.ycentroid), np.asarray(v.kron_radius.value), list(v.extra_properties)])
+        elif k in ('apertures', 'aperture5'):      # defining parameters only (lazily cached derived attributes live in __dict__ too)
+            aps = v if isinstance(v, list) else [v]
+            out[k] = digest([[type(a).__name__, np.asarray(a.positions), {q: float(getattr(a, q)) for q in a._params if q != 'positions'}] for a in aps])
         elif type(v).__module__.split('.')[0] in ('photutils', 'astropy') and not hasattr(v, 'param_names') and not hasattr(v, 'colnames') \
                 and not isinstance(v, np.ndarray) and not hasattr(v, 'uncertainty'):
             out[k] = digest(describe(v))
